@@ -90,7 +90,9 @@ impl Value {
                 Err(InvalidCss::UndefOp(self))
             }
             Self::Call(ref name, ref args) => {
-                if name != "calc" {
+                // The arguments of a calculation follow the rules of
+                // calculations, e.g. a product with `var()` is fine.
+                if !is_calc_name(name) {
                     for arg in &args.positional {
                         arg.clone().valid_css()?;
                     }
